@@ -286,6 +286,9 @@ func businessLog(execLog []*redisd.Req) []*redisd.Req {
 		case "select", "multi", "exec", "ping", "info", "exists", "hgetall", "hget", "get", "eval", "script", "keys", "scan", "type", "command":
 			continue
 		}
+		if redisd.NonData(r.Name()) {
+			continue
+		}
 		if len(r.Argv) > 1 && isBookkeepingKey(r.Argv[1]) {
 			continue
 		}
